@@ -591,6 +591,27 @@ def r06_14(run, model):
     c03.r03_1(run, model, stages=("matchc",))
 
 
+def _feeds_no_go_syntax(run, model, mir, rel, c, tail):
+    """the adaptor chain this call belongs to ends in a `collect` whose resolved result type mentions no goast type: the chain reads the
+    Go syntax to answer a question (a set of strings), it does not produce the syntax that is emitted"""
+    tree = run.facts.syn(rel)
+    par = S.Parents(tree)
+    for n in S.walk(tree):
+        if n["k"] == "MethodCall" and n["method"] == tail and (n["sp"][0], n["sp"][1]) == (c["line"], c["col"]):
+            top = n
+            while True:
+                up = par.parent(top)
+                if up is not None and up["k"] == "MethodCall" and up.get("recv") is top:
+                    top = up
+                else:
+                    break
+            if top["method"] != "collect":
+                return False
+            rets = {r["ret"] for r in mir.at(rel, top["sp"][0], top["sp"][1], "collect")}
+            return bool(rets) and all("goast::" not in r for r in rets)
+    return False
+
+
 def r06_17(run, model):
     run.rule("R06.17", "the Go emitter keeps every clause and statement it has built: in go/compile.rs no filtering or shortening operation "
                        "(filter, filter_map, retain, take_while, skip_while, dedup, truncate, skip, take, drain, pop, remove, clear) is applied to a "
@@ -610,6 +631,8 @@ def r06_17(run, model):
         t = callee_tail(c["callee"])
         if t in FILT and not re.search(r"option::Option|mem::(take|replace|swap)|collections::(Hash|BTree)|indexmap::", c["callee"]):
             # (Option::take / mem::take move a value out, maps are not sequences of clauses)
+            if _feeds_no_go_syntax(run, model, mir, GOC, c, t):
+                continue    # a question asked of the emitted items (`existing import paths`), not a rebuilt piece of output
             k += 1
             fn_ = re.sub(r"(::\{closure#\d+\})+$", "", c["caller"]).split("::")[-1]
             run.ob("R06.17", f"{fn_}|{t} on a collection of Go syntax", False, site(GOC, [c["line"]]),
